@@ -68,7 +68,7 @@ def plan(prop, tier, seed, t0):
     from plans import run_plan, COMMON_ASSUME
     q = tier == "quick"
     mcs = [dict(name="phase", module="MC_Phase.tla", cfg="MC_Phase_q.cfg" if q else "MC_Phase_t.cfg",
-                workers=8, timeout=900 if q else 3000)]
+                workers=8, timeout=3000 if q else 9000)]
     T = dict(module="Trace_Phase.tla", cfg="Trace_Phase.cfg", shards=8)
     traces = [
         dict(name="exh", engine="phase", args=["--exhaustive", "40,24" if q else "120,60", "--maxm", 12 if q else 24,
